@@ -92,3 +92,26 @@ Theorem C17_ring_implementation_refines_abstract_log : forall ops,
   impl_outputs ops = Some (spec_outputs ops).
 Proof. exact impl_refines_spec. Qed.
 Print Assumptions C17_ring_implementation_refines_abstract_log.
+
+(* "These outcomes are the same when the calls are made concurrently from many
+   connections."  Every method holds the mutex for its whole body (the
+   translator re-reads that from har/har.go on every run, Proofs_Tie.v), so a
+   concurrent execution is a merge of the per-connection call sequences.  The
+   executable oracle run on the recorded per-thread (call, result) sequences
+   plus the calls made after joining is exactly "some merge of the threads is
+   a run of the abstract log with these results". *)
+From Martian.C17 Require Import Proofs_Conc.
+Theorem C17_concurrent_oracle_is_linearizability : forall ths fin,
+  c17_conc_ok ths fin = true <->
+  exists s, Merge ths s /\ map snd (s ++ fin) = spec_outputs (map fst (s ++ fin)).
+Proof. exact conc_oracle_iff. Qed.
+Print Assumptions C17_concurrent_oracle_is_linearizability.
+
+(* ... and every execution of the ring transcription under atomic methods is
+   accepted by it: whatever order [s] the scheduler merged the threads in. *)
+Theorem C17_concurrent_ring_executions_linearizable : forall ths fin s,
+  Merge ths s ->
+  impl_outputs (map fst (s ++ fin)) = Some (map snd (s ++ fin)) ->
+  c17_conc_ok ths fin = true.
+Proof. exact conc_impl_accepted. Qed.
+Print Assumptions C17_concurrent_ring_executions_linearizable.
